@@ -156,9 +156,9 @@ def run(repo, res):
     res.count('popen_sites', len(popen_sites), floor=1)
     launchers = {q.split('.')[-1] for q, _ in popen_sites}
     for q, n in popen_sites:
-        res.check('C16-R3', 'Popen in %s' % q, q == 'Environment._run', REMOTE, n.lineno,
-                  'the server process may be launched only by Environment._run (found in %s)' % q,
-                  nontrivial=False)
+        res.check('C16-R3', 'Popen in a method of Environment', q.startswith('Environment.'), REMOTE, n.lineno,
+                  'the server process may be launched only by a method of Environment, every call of which is a checked launch '
+                  'route (found in %s)' % q, nontrivial=False)
     # every call of a launcher from a caller-context method
     nroutes = 0
     for mname, m in methods.items():
@@ -248,12 +248,15 @@ def run(repo, res):
 
 
 def conn_idiom_holds(methods):
-    """run() re-tests the connection under the lock before launching."""
+    """run() re-tests the connection under the lock before launching (the launcher is whichever method calls Popen)."""
     r = methods.get('run')
     if r is None:
         return False
+    launchers = {name for name, m in methods.items()
+                 if any(unparse(c.func).split('.')[-1] == 'Popen' for c in calls_in(m))}
     for c in calls_in(r):
-        if unparse(c.func) == 'self._run':
+        f = unparse(c.func)
+        if f.startswith('self.') and f[5:] in launchers:
             return holds_lock(c, r) and dominated_by_conn_absent(c, r)
     return False
 
